@@ -117,28 +117,25 @@ Theorem C25_range_exact :
 Proof. exact calc_view_range_level1. Qed.
 Print Assumptions C25_range_exact.
 
-(* REFUTED: "a range never ends in an internal error".  Two merged revisions
-   with the same base revno on different branches (1.1.1 and 1.2.1) pass
-   _is_obvious_ancestor, the generator is returned unevaluated, and the internal
-   _StartNotLinearAncestor escapes at level 1 -- while level 0 reports the proper
-   CommandError.  Reproduced on the real code (finding C25-start-not-linear-leak). *)
-Theorem C25_range_no_internal_error_refuted :
-  exists b s e, wf_dag (br_g b) = true /\
-  revision_id_to_dotted_revno b (Some s) = Ok [1; 1; 1] /\
-  revision_id_to_dotted_revno b (Some e) = Ok [1; 2; 1] /\
-  snd (log_revisions b (Some s) (Some e) false 1 0 false) = Some StartNotLinearAncestor /\
-  snd (log_revisions b (Some s) (Some e) false 0 0 false) = Some StartNotInHistory.
-Proof. exists leak_branch, 3, 4. exact internal_error_leaks. Qed.
-Print Assumptions C25_range_no_internal_error_refuted.
+(* No request makes _calc_view_revisions end with the internal
+   _StartNotLinearAncestor exception (before the repair a31cbfe this was refuted
+   by the range 1.1.1..1.2.1 at one level, finding C25-start-not-linear-leak):
+   whenever _is_obvious_ancestor lets the unevaluated generator through, the
+   left-hand walk from the end does meet the start. *)
+Theorem C25_range_no_internal_error :
+  forall b (t : revid) start end_ forward gen_merge delayed excl,
+  wf_dag (br_g b) = true -> br_tip b = Some t -> t < length (br_g b) ->
+  lefthand_present (br_g b) t = true ->
+  snd (calc_view b start end_ forward gen_merge delayed excl) <> Some StartNotLinearAncestor.
+Proof. exact calc_view_no_internal_error. Qed.
+Print Assumptions C25_range_no_internal_error.
 
-(* GUARDED: the internal exception can only escape in the reverse direction, at
-   one level, with a start revision that _is_obvious_ancestor accepts although the
-   left-hand walk from the end never meets it *)
-Theorem C25_range_no_internal_error_guarded :
-  forall b start end_ forward gen_merge delayed excl,
-  snd (calc_view b start end_ forward gen_merge delayed excl) = Some StartNotLinearAncestor ->
-  forward = false /\ gen_merge = false /\ (exists s, start = Some s) /\
-  is_obvious_ancestor b start end_ = true /\
-  snd (linear_view b start end_ excl) = Some StartNotLinearAncestor.
-Proof. exact calc_view_internal_error_guarded. Qed.
-Print Assumptions C25_range_no_internal_error_guarded.
+(* what _is_obvious_ancestor promises: the start revision is on the left-hand
+   history of the end revision (of the tip when the end is open) *)
+Theorem C25_obvious_ancestor_is_linear :
+  forall b (t : revid) s end_ excl,
+  wf_dag (br_g b) = true -> br_tip b = Some t -> t < length (br_g b) ->
+  lefthand_present (br_g b) t = true ->
+  is_obvious_ancestor b (Some s) end_ = true -> snd (linear_view b (Some s) end_ excl) = None.
+Proof. exact obvious_is_linear. Qed.
+Print Assumptions C25_obvious_ancestor_is_linear.
